@@ -192,6 +192,27 @@ Proof. open_sc. unfold wigner_A. rewrite S1. unfold two in *. field. repeat spli
 Lemma wigner_out_scaled w : lam * lam * wigner_out F c' w = wigner_out F c w.
 Proof. open_sc. unfold wigner_out. rewrite S3. field. split; assumption. Qed.
 
+Lemma bos_terms_scaled l :
+  bos_terms F (map (fun t => match t with (w, tr, dot) => (w, lam * lam * tr, lam * lam * dot) end) l)
+  = map (fun t => lam * lam * t) (bos_terms F l).
+Proof.
+  unfold bos_terms. rewrite !map_map. apply map_ext. intros [[w tr] dot]. ring.
+Qed.
+Lemma bos_mean_photon_invariant l :
+  bos_mean_photon F c' (map (fun t => match t with (w, tr, dot) => (w, lam * lam * tr, lam * lam * dot) end) l)
+  = bos_mean_photon F c l.
+Proof.
+  unfold bos_mean_photon. rewrite bos_terms_scaled, ksum_scale. open_sc. rewrite S3.
+  unfold half, two in *. field. repeat split; assumption.
+Qed.
+Lemma bos_fid_prefsq_invariant N detsum :
+  detsum <> 0 ->
+  bos_fid_prefsq F c' N (kpow F (lam * lam) (2 * N) * detsum) = bos_fid_prefsq F c N detsum.
+Proof.
+  intro Hd. unfold bos_fid_prefsq. open_sc. rewrite S3. rewrite kpow_mul. field.
+  split; [assumption | apply kpow_nz; apply mul_nz; assumption].
+Qed.
+
 Lemma util_mean_scaled a : util_mean F c' a = lam * util_mean F c a.
 Proof. open_sc. unfold util_mean. rewrite S2. ring. Qed.
 Lemma util_cov_scaled e : util_cov F c' e = lam * lam * util_cov F c e.
